@@ -138,5 +138,8 @@ pub fn guarded<T>(f: impl FnOnce() -> T + std::panic::UnwindSafe) -> Result<T, S
 }
 
 pub fn quiet_panics() {
+    if std::env::var("VHARNESS_LOUD").is_ok() {
+        return;
+    }
     std::panic::set_hook(Box::new(|_| {}));
 }
